@@ -80,7 +80,7 @@ func drainAll(cc *lime.ClientChannel) {
 	}
 }
 
-func body(nclients int, withInproc bool) func(x *harness.X) {
+func body(nclients int, withInproc, withWS bool) func(x *harness.X) {
 	return func(x *harness.X) {
 		lib.Reset()
 		s := &st{est: map[string]int{}, fin: map[string]int{}}
@@ -197,6 +197,8 @@ func body(nclients int, withInproc bool) func(x *harness.X) {
 						x.Obs("%s: connection refused", c.name)
 						return
 					}
+				} else if withWS && i == 0 {
+					tr, c.conn = pl.DialWS()
 				} else {
 					c.conn = pl.Dial()
 					tr = lime.NewTCPTransportFromConn(c.conn, nil, false)
@@ -302,11 +304,20 @@ func final(x *harness.X, res *rt.Result) {
 			// accepted is not the subject of this property
 			continue
 		}
+		onClientEnd := false
+		for _, cc := range s.pl.Clients {
+			if cc.ParkedHere(g) {
+				onClientEnd = true // e.g. the helper goroutine of a client-side WebSocket Receive
+			}
+		}
+		if onClientEnd {
+			continue
+		}
 		x.Failf("goroutine-left:"+g.Name+"["+g.PendTag()+"]", "server goroutine %s (%s) left behind after Close %s", g.Name, g.PendTag(), hist)
 	}
 	for i, sc := range s.pl.Servers {
 		// connections the server started to serve (it read the client's first envelope)
-		if sc.BytesRead > 0 && !sc.IsClosed() {
+		if sc.BytesRead > s.pl.Base[i] && !sc.IsClosed() {
 			x.Failf("server-conn-open", "server end of connection %d was never closed %s", i, hist)
 		}
 	}
@@ -382,16 +393,17 @@ func final(x *harness.X, res *rt.Result) {
 func main() {
 	opt := rt.Options{NoExplore: true, Horizon: 300 * time.Second, MaxSteps: 100000, BoundAll: true, NoTimerDeviation: true}
 	mk := func(name string, n int, inproc bool, q, t int) harness.Scenario {
-		return harness.Scenario{Name: name, Opt: opt, Quick: q, Thorough: t, Prune: false, Body: body(n, inproc), Final: final}
+		return harness.Scenario{Name: name, Opt: opt, Quick: q, Thorough: t, Prune: false, Body: body(n, inproc, strings.Contains(name, "ws")), Final: final}
 	}
 	harness.Main(harness.Check{
 		Property: "C18",
 		Level:    "model_checking",
-		Rule:     "1-2 clients (real ClientChannel over the real TCP transport on virtual pipes; optionally one over the in-process listener); the last client is a normal session, one the server refuses (unknown role), a raw client whose handshake stalls after the server's first answer, or a client that drops its connection once established x moment at which Server.Close is released {start-up, a client dialled, a client established, traffic handled} x {idle, one message} as data choices; all schedules within the deviation bound (delay bounding) from ListenAndServe's start; distinct outcome = distinct observation log",
-		Assume:   []string{"state pruning is off (Server.shutdown and Client fields are not behind hooked operations)", "WebSocket/real TCP listeners are not explored under the scheduler"},
+		Rule:     "1-2 clients (real ClientChannel over the real TCP transport on virtual pipes; optionally one over the in-process listener or over a WebSocket connection); the last client is a normal session, one the server refuses (unknown role), a raw client whose handshake stalls after the server's first answer, a client that drops its connection once established, or one whose session the application finishes/fails from inside its Established callback x moment at which Server.Close is released {start-up, a client dialled, a client established, traffic handled} x {idle, one message} as data choices; all schedules within the deviation bound (delay bounding) from ListenAndServe's start; distinct outcome = distinct observation log",
+		Assume:   []string{"state pruning is off (Server.shutdown and Client fields are not behind hooked operations)", "real TCP/WebSocket listeners (OS sockets, HTTP server) are not explored under the scheduler: connections reach the server through the pipe listener"},
 		Scenarios: []harness.Scenario{
 			mk("1client", 1, false, 1, 2),
 			mk("2clients", 2, false, 1, 2),
+			mk("2clients/ws+pipe", 2, false, 1, 1),
 			mk("2clients/inproc+pipe", 2, true, -1, 1),
 		},
 	})
